@@ -34,11 +34,13 @@ def verify(d: str, run_tests: bool = True) -> dict:
     wt = tempfile.mkdtemp(prefix="vs-", dir="/tmp")
     os.rmdir(wt)
     out = {"dir": d}
+    priv = None
     try:
         r = sh(["git", "-C", "/repo", "worktree", "add", "-q", "--detach", wt, "HEAD"])
         if r.returncode:
             raise SystemExit(r.stderr)
-        env = dict(os.environ, PYTHONPATH=os.path.join(wt, "src"))
+        priv = tempfile.mkdtemp(prefix="vs-tmp-", dir="/tmp")     # some tests use fixed names under $TMPDIR
+        env = dict(os.environ, PYTHONPATH=os.path.join(wt, "src"), TMPDIR=priv)
         r0 = sh(["/venv/bin/python", demo], env=env, cwd=wt, timeout=900)
         out["demo_clean_exit"] = r0.returncode
         ra = sh(["git", "-C", wt, "apply", os.path.abspath(patch)])
@@ -60,10 +62,40 @@ def verify(d: str, run_tests: bool = True) -> dict:
     finally:
         sh(["git", "-C", "/repo", "worktree", "remove", "--force", wt])
         shutil.rmtree(wt, ignore_errors=True)
+        shutil.rmtree(priv, ignore_errors=True)
 
 
 def repo_clean() -> bool:
     return sh(["git", "-C", "/repo", "status", "--porcelain"]).stdout.strip() == ""
+
+
+def run_scratch(seed_id: str, tier: str = "quick", props=None, seeds=("1",)) -> dict:
+    """Like run(), but on a scratch copy of /repo (VERIF_REPO) - used while a background run needs /repo untouched."""
+    from vfw.mutate import make_copy
+
+    d = os.path.join(SEEDED, seed_id)
+    meta = json.load(open(os.path.join(d, "meta.json")))
+    props = props or [meta["property"]]
+    copy = make_copy()
+    res = {"seed": seed_id, "results": {}}
+    try:
+        r = sh(["patch", "-p1", "-s", "-i", os.path.join(d, "patch.diff")], cwd=copy)
+        if r.returncode:
+            raise SystemExit(f"cannot apply {seed_id}: {r.stdout}{r.stderr}")
+        for pid in props:
+            for s in seeds:
+                rr = sh(["/venv/bin/python", "-m", "vfw.check", pid, "--tier", tier], cwd=VERIF,
+                        env=dict(os.environ, VERIF_SEED=s, VERIF_REPO=copy))
+                lines = rr.stdout.strip().splitlines()
+                fail = [ln for ln in lines if ln.startswith("  failure:")]
+                res["results"][f"{pid}@seed{s}"] = {"exit": rr.returncode, "failure": fail[0][:300] if fail else "",
+                                                    "summary": [ln for ln in lines if ln.startswith(pid + " ")][-1:],
+                                                    "stderr": rr.stderr[-300:] if rr.returncode == 2 else ""}
+                if rr.returncode == 1:
+                    break
+    finally:
+        shutil.rmtree(copy, ignore_errors=True)
+    return res
 
 
 def run(seed_id: str, tier: str = "quick", props=None, seeds=("1",)) -> dict:
@@ -93,24 +125,59 @@ def run(seed_id: str, tier: str = "quick", props=None, seeds=("1",)) -> dict:
     return res
 
 
+def adopt(src: str, seed_id: str, prop: str, verify_json: str):
+    """Copy a confirmed change into /verif/seeded/<id>/ with its meta.json."""
+    v = json.load(open(verify_json))
+    if not v.get("ok"):
+        raise SystemExit(f"{src}: not confirmed: {v}")
+    d = os.path.join(SEEDED, seed_id)
+    os.makedirs(d, exist_ok=True)
+    for f in ("patch.diff", "demo.py", "notes.md"):
+        shutil.copy(os.path.join(src, f), os.path.join(d, f))
+    notes = open(os.path.join(src, "notes.md")).read()
+    meta = {
+        "id": seed_id, "property": prop, "origin": "independent sub-agent given only the property text and a scratch worktree",
+        "needs_to_manifest": notes.strip()[:1500],
+        "confirmed": {
+            "how": "python -m vfw.seeded verify: fresh detached worktree of /repo HEAD under /tmp; demo.py on clean sources, "
+                   "git apply patch.diff, demo.py again, baseline pytest (test_roundtrip deselected, private TMPDIR)",
+            "demo_clean_exit": v["demo_clean_exit"], "demo_patched_exit": v["demo_patched_exit"],
+            "tests": v.get("tests_tail", ""),
+        },
+    }
+    json.dump(meta, open(os.path.join(d, "meta.json"), "w"), indent=1)
+    print("adopted", seed_id)
+
+
 def main():
     ap = argparse.ArgumentParser()
-    ap.add_argument("cmd", choices=["verify", "run", "sweep"])
+    ap.add_argument("cmd", choices=["verify", "run", "sweep", "adopt"])
+    ap.add_argument("--id")
+    ap.add_argument("--prop")
+    ap.add_argument("--verify-json")
     ap.add_argument("target", nargs="?")
     ap.add_argument("--tier", default="quick")
     ap.add_argument("--props")
     ap.add_argument("--seeds", default="1")
     ap.add_argument("--no-tests", action="store_true")
+    ap.add_argument("--scratch", action="store_true", help="use a scratch copy + VERIF_REPO instead of applying to /repo")
+    ap.add_argument("--only", help="comma separated seed ids for sweep")
     a = ap.parse_args()
+    if a.cmd == "adopt":
+        adopt(a.target, a.id, a.prop, a.verify_json)
+        return 0
     if a.cmd == "verify":
         print(json.dumps(verify(a.target, not a.no_tests), indent=1))
     elif a.cmd == "run":
-        print(json.dumps(run(a.target, a.tier, a.props.split(",") if a.props else None, a.seeds.split(",")), indent=1))
+        fn = run_scratch if a.scratch else run
+        print(json.dumps(fn(a.target, a.tier, a.props.split(",") if a.props else None, a.seeds.split(",")), indent=1))
     else:
         rows = []
         for d in sorted(glob.glob(os.path.join(SEEDED, "*", "meta.json"))):
             sid = os.path.basename(os.path.dirname(d))
-            r = run(sid, a.tier, None, a.seeds.split(","))
+            if a.only and sid not in a.only.split(","):
+                continue
+            r = (run_scratch if a.scratch else run)(sid, a.tier, None, a.seeds.split(","))
             caught = any(v["exit"] == 1 for v in r["results"].values())
             rows.append((sid, "CAUGHT" if caught else "MISSED", next((v["failure"] for v in r["results"].values() if v["failure"]), "")))
             print(rows[-1], flush=True)
